@@ -122,7 +122,12 @@ class RNG:
                 out = self.orig['rand'](*size, **kw)
                 self.calls.append(('rand', out.tolist()))
                 return out
-            n = n_of(size[0] if len(size) == 1 else size)
+            # torch.rand(n), torch.rand((n,)), torch.rand(n, m), torch.rand((n, m)): any shape is legitimate; the scripted
+            # draws fill it in row-major order (the per-call `force` table addresses flat positions)
+            shape = tuple(int(x) for x in (size[0] if len(size) == 1 and isinstance(size[0], (tuple, list, t.Size)) else size))
+            n = 1
+            for x in shape:
+                n *= x
             k = sum(1 for c in self.calls if c[0] == 'rand')
             vals = [self.r.randrange(0, 1 << 20) / float(1 << 20) for _ in range(n)]
             if k in self.force:
@@ -130,7 +135,7 @@ class RNG:
                     if j < n:
                         vals[j] = v
             self.calls.append(('rand', vals))
-            return t.tensor(vals, dtype=t.float64)
+            return t.tensor(vals, dtype=t.float64).reshape(shape)
 
         def normal(*a, **kw):
             mean = kw.get('mean', a[0] if a else None)
@@ -153,15 +158,20 @@ class RNG:
             self.calls.append(('randperm', p))
             return t.tensor(p, dtype=t.int64)
 
-        def randint(lo, hi, size, **kw):
+        def randint(*a, **kw):
             if self.mode == 'spy':
-                out = self.orig['randint'](lo, hi, size, **kw)
+                out = self.orig['randint'](*a, **kw)
                 self.calls.append(('randint', out.tolist()))
                 return out
-            assert (lo, hi) == (0, 2)
-            bits = [self.r.randrange(2) for _ in range(n_of(size))]
+            lo, hi, size = (0, a[0], a[1]) if len(a) == 2 else a      # torch.randint(high, size) / torch.randint(low, high, size)
+            # any half-open integer range and any shape are legitimate calls; scripted values fill the shape in row-major order
+            shape = tuple(int(x) for x in size) if isinstance(size, (tuple, list, t.Size)) else (int(size),)
+            n = 1
+            for x in shape:
+                n *= x
+            bits = [self.r.randrange(int(lo), int(hi)) for _ in range(n)]
             self.calls.append(('randint', bits))
-            return t.tensor(bits, dtype=kw.get('dtype', t.int64))
+            return t.tensor(bits, dtype=kw.get('dtype', t.int64)).reshape(shape)
         t.rand, t.normal, t.randperm, t.randint = rand, normal, randperm, randint
         return self
 
